@@ -38,6 +38,9 @@ func init() {
 			}
 			S := func(n ast.Node) string { return src(fset, n) }
 			base := rel[strings.LastIndex(rel, "/")+1:]
+			if strings.HasPrefix(rel, "internal/modelgraph/") {
+				base = "modelgraph/" + base
+			}
 			for _, d := range f.Decls {
 				fd, ok := d.(*ast.FuncDecl)
 				if !ok || fd.Body == nil {
@@ -243,7 +246,7 @@ func init() {
 	register("ResolverKeys", func(repo string) (Result, error) {
 		cps := func(s string) string { return leanBytes(s) }
 		var flights, caches []string
-		for _, rel := range []string{"pkg/typesystem/resolver.go", "pkg/storage/storagewrappers/model_caching.go"} {
+		for _, rel := range []string{"pkg/typesystem/resolver.go", "pkg/storage/storagewrappers/model_caching.go", "internal/modelgraph/resolver.go"} {
 			fset, f, err := parseFile(repo, rel)
 			if err != nil {
 				return Result{}, err
